@@ -78,3 +78,35 @@ def pack(jobs, cost, nproc=16, affinity=None):
         parts[i] += js
         load[i] += c
     return parts
+
+
+def run_pool(worker, parts, env=None, envs=None, nproc=16, timeout=3600):
+    """Like run_partitions but with at most `nproc` worker processes alive at a time (dynamic scheduling):
+    used when every partition must be its own fresh interpreter."""
+    import concurrent.futures as cf
+    e0 = dict(os.environ)
+    e0.setdefault("PYTHONHASHSEED", "0")
+    e0["PYTHONPATH"] = core.REPO + os.pathsep + core.VERIF + os.pathsep + e0.get("PYTHONPATH", "")
+    e0[core.GUARD] = "1"
+    e0.setdefault("NUMBA_NUM_THREADS", "1")
+    e0.setdefault("OMP_NUM_THREADS", "1")
+    if env:
+        e0.update(env)
+
+    def one(i):
+        e = dict(e0)
+        if envs and envs[i]:
+            e.update(envs[i])
+        try:
+            p = subprocess.run([core.PY, "-m", "harness.workers." + worker], env=e, cwd=core.VERIF,
+                               input=json.dumps({"jobs": parts[i]}), stdout=subprocess.PIPE, stderr=subprocess.PIPE,
+                               text=True, timeout=timeout)
+        except subprocess.TimeoutExpired:
+            raise core.MachineryError("worker %s partition %d timed out" % (worker, i))
+        lines = [ln for ln in p.stdout.splitlines() if ln.startswith("{")]
+        if p.returncode != 0 or len(lines) != len(parts[i]):
+            raise core.MachineryError("worker %s partition %d rc=%s got %d/%d lines\n%s"
+                                      % (worker, i, p.returncode, len(lines), len(parts[i]), (p.stderr or "")[-3000:]))
+        return [json.loads(ln) for ln in lines]
+    with cf.ThreadPoolExecutor(max_workers=nproc) as ex:
+        return list(ex.map(one, range(len(parts))))
